@@ -694,6 +694,7 @@ func c17AllCallersPassNonNil(p *Prog, fn *ssa.Function, q *ssa.Parameter) bool {
 
 func c17Replies(c *Ctx, p *Prog) {
 	c17FailureReplyMeansError(c, p)
+	c17EscapeFlag(c, p)
 	rc := p.Func("common/socks5:(*Request).readCommand")
 	ob := c.Obl("R5", "common/socks5:(*Request).readCommand#reply-on-failure", "every failure return of the command reader is preceded, in its own block, by a reply to the client; an unsupported command is answered with code 7 and an unsupported address type with code 8")
 	if rc == nil {
@@ -955,5 +956,85 @@ func c17Replies(c *Ctx, p *Prog) {
 		ob.Violate("%s", bad)
 	} else {
 		ob.HoldNT("%d failure returns via sendErrResp", nf)
+	}
+}
+
+// c17EscapeFlag: the one bit of state the argument parser carries from byte to byte is "the previous byte was an
+// unescaped backslash".  Round every loop trip the flag is the constant false, the toggle of itself (the
+// backslash arm), or itself where it is known to be false — a path that goes round again without having looked
+// at the flag carries a stale escape into the next byte.
+func c17EscapeFlag(c *Ctx, p *Prog) {
+	const key = "common/socks5:parseClientParameters"
+	ob := c.Obl("R2", key+"#escape-flag", "every value the escape flag takes at the loop's back edges is false, its own toggle (backslash), or itself on a path that has tested it false: no byte is appended with a stale escape pending")
+	fn := p.Func(key)
+	if fn == nil {
+		ob.Undecide("not found")
+		return
+	}
+	ff := p.Facts(fn)
+	n := 0
+	bad := ""
+	for _, b := range fn.Blocks {
+		for _, in := range b.Instrs {
+			ph, ok := in.(*ssa.Phi)
+			if !ok {
+				break
+			}
+			if !isBoolType(ph.Type()) || !blockOnCycle(b) {
+				continue
+			}
+			loopCarried := false
+			for i := range ph.Edges {
+				if isBackEdge(b.Preds[i], b) {
+					loopCarried = true
+				}
+			}
+			if !loopCarried {
+				continue
+			}
+			n++
+			var check func(v ssa.Value, pred *ssa.BasicBlock, d int) bool
+			check = func(v ssa.Value, pred *ssa.BasicBlock, d int) bool {
+				v = unspill(v)
+				if _, isC := v.(*ssa.Const); isC {
+					return true
+				}
+				if u, ok := v.(*ssa.UnOp); ok && u.Op == token.NOT && unspill(u.X) == ssa.Value(ph) {
+					return true
+				}
+				if v == ssa.Value(ph) {
+					fs := append([]Fact{}, ff.NC(pred)...)
+					return hasFact(fs, func(f Fact) bool {
+						cnd, pol := stripNot(f.Cond, f.Pol)
+						return unspill(cnd) == ssa.Value(ph) && !pol
+					})
+				}
+				if q, ok := v.(*ssa.Phi); ok && d < 4 {
+					for j, e := range q.Edges {
+						if !check(e, q.Block().Preds[j], d+1) {
+							return false
+						}
+					}
+					return true
+				}
+				return false
+			}
+			for i, e := range ph.Edges {
+				if !isBackEdge(b.Preds[i], b) {
+					continue
+				}
+				if !check(e, b.Preds[i], 0) {
+					bad = "the flag goes round the loop unchanged on a path that has not tested it (back edge from " + b.Preds[i].Comment + ")"
+				}
+			}
+		}
+	}
+	switch {
+	case n == 0:
+		ob.Undecide("no loop-carried boolean in %s", key)
+	case bad != "":
+		ob.Violate("%s", bad)
+	default:
+		ob.HoldNT("%d loop-carried flag(s), reset or tested on every trip", n)
 	}
 }
